@@ -1,7 +1,31 @@
-//! C35 — user components see correct values and timing (work in progress).
-use crate::simrun::{self, EngineCfg};
+//! C35 — user components see correct values and timing.
+//!
+//! A harness-defined probe component (`probe.rs`) is registered through the real
+//! registration API (`register_static_component`) and, as a second transport,
+//! loaded by the simulator's own dlopen path from `libc35probe.so` (the same
+//! source built as a cdylib).  A generated `#[test]` module instantiates it next
+//! to an RTL module with mirror / capture flip-flops and runs a generated
+//! stimulus script through the real testbench machinery.
+//!
+//! Oracle (reference model in `case.rs`, nothing of /repo is consulted):
+//!  1. every value the probe logs for an input at clock hook k equals the value
+//!     of the connected expression *before* edge k, and equals what the mirror
+//!     flip-flop (same expression, same clock) holds after edge k;
+//!  2. an output written at hook k is visible after edge k (not before: the
+//!     capture flip-flop clocked by the same edge still sees the old value; not
+//!     later: the snapshot taken right after the edge has the new one);
+//!  3. payload and X/Z mask of every port value, parameter, method argument and
+//!     method return arrive bit-exact (ports: X/Z under 4-state engines;
+//!     parameters / method values are two-state by the documented contract).
+//! All engine configurations and both transports must give the same log.
+
+use crate::case::{self, Case, Exp, Expectation, Param, Src, Step};
+use crate::simrun::{self, Bv, EngineCfg, RunOut};
+use c35probe as probe;
+use std::collections::BTreeSet;
 use std::path::PathBuf;
-use vcore::Ctx;
+use std::sync::atomic::{AtomicU64, Ordering};
+use vcore::{CaseCfg, Ctx, Draw, Outcome, hash_str, json};
 
 pub fn probe_lib() -> PathBuf {
     let exe = std::env::current_exe().expect("current_exe");
@@ -9,7 +33,7 @@ pub fn probe_lib() -> PathBuf {
 }
 
 pub fn register() {
-    for (name, vt) in c35probe::VERYL_COMPONENT_TABLE {
+    for (name, vt) in probe::VERYL_COMPONENT_TABLE {
         veryl_simulator::component::loader::register_static_component(name, vt);
     }
 }
@@ -20,55 +44,671 @@ pub fn all_cfgs() -> Vec<EngineCfg> {
         for four_state in [false, true] {
             for jit in [false, true] {
                 for disable_ff_opt in [false, true] {
-                    v.push(EngineCfg { four_state, jit, disable_ff_opt, cc: false, dlopen });
+                    v.push(EngineCfg {
+                        four_state,
+                        jit,
+                        disable_ff_opt,
+                        cc: false,
+                        dlopen,
+                    });
                 }
             }
         }
-        v.push(EngineCfg { four_state: false, jit: true, disable_ff_opt: false, cc: true, dlopen });
+        v.push(EngineCfg {
+            four_state: false,
+            jit: true,
+            disable_ff_opt: false,
+            cc: true,
+            dlopen,
+        });
     }
     v
 }
 
-/// `vc-comp C35-exp FILE top snap1,snap2,.. [filter]`
+// ---------------------------------------------------------------------------
+// log parsing
+// ---------------------------------------------------------------------------
+
+fn parse_words(s: &str) -> Option<Vec<u64>> {
+    s.split(',').map(|x| u64::from_str_radix(x, 16).ok()).collect()
+}
+
+/// `bits <w> <words> <mask>` or `raw <w> <words>`
+fn parse_val(toks: &[&str]) -> Option<(bool, Bv)> {
+    match toks {
+        ["bits", w, words, mask] => {
+            let w: u32 = w.parse().ok()?;
+            let (words, mask) = (parse_words(words)?, parse_words(mask)?);
+            let n = simrun::nwords(w);
+            // the probe prints exactly what the SDK handed over: word count and
+            // clean top word are part of the `Value` contract
+            if words.len() != n || mask.len() != n {
+                return None;
+            }
+            if (words[n - 1] | mask[n - 1]) & !simrun::top_mask(w) != 0 {
+                return None;
+            }
+            Some((false, Bv::new(w, words, mask)))
+        }
+        ["raw", w, words] => {
+            let w: u32 = w.parse().ok()?;
+            let words = parse_words(words)?;
+            if words.len() != simrun::nwords(w) {
+                return None;
+            }
+            // keep excess bits visible: compare the words as they are
+            let n = words.len();
+            if words[n - 1] & !simrun::top_mask(w) != 0 {
+                return None;
+            }
+            Some((true, Bv::new(w, words, vec![])))
+        }
+        _ => None,
+    }
+}
+
+/// Strip `[p] cycle N: `.
+fn strip(line: &str) -> Option<&str> {
+    let rest = line.strip_prefix(&format!("[{}] cycle ", case::INST))?;
+    let (_, msg) = rest.split_once(": ")?;
+    Some(msg)
+}
+
+fn suffix(width: u32, xz: bool) -> String {
+    format!(
+        "{}{}",
+        if width > 64 { "/wide" } else { "/narrow" },
+        if xz { "/xz" } else { "" }
+    )
+}
+
+pub struct Fail {
+    pub sig: String,
+    pub msg: String,
+}
+
+fn fail(sig: impl Into<String>, msg: impl Into<String>) -> Fail {
+    Fail {
+        sig: sig.into(),
+        msg: msg.into(),
+    }
+}
+
+/// Compare one run with the model.
+pub fn check_run(c: &Case, exp: &Expectation, out: &RunOut) -> Result<(), Fail> {
+    if let Err(m) = &out.result {
+        let class = if m.contains("panicked") {
+            "component-panicked"
+        } else if m.contains("returned") && m.contains("bits") {
+            "method-return-width"
+        } else if m.contains("init_components") {
+            "component-load"
+        } else {
+            "other"
+        };
+        return Err(fail(format!("test-fails/{class}"), format!("testbench result: {m}")));
+    }
+    let mut actual: Vec<&str> = vec![];
+    for line in out.log.lines() {
+        match strip(line) {
+            Some(m) => {
+                if !(m.starts_with("W ") || m.starts_with("S ")) {
+                    actual.push(m);
+                }
+            }
+            None => {
+                return Err(fail("log-structure", format!("unexpected output line {line:?}")));
+            }
+        }
+    }
+    if actual.len() != exp.log.len() {
+        return Err(fail(
+            "log-structure",
+            format!(
+                "{} log lines, model expects {} (hooks fired a different number of times?)\nlog:\n{}",
+                actual.len(),
+                exp.log.len(),
+                out.log
+            ),
+        ));
+    }
+    // reads per edge, for the relational mirror check
+    let mut reads: Vec<Vec<(bool, Bv)>> = vec![];
+    for (n, (a, e)) in actual.iter().zip(&exp.log).enumerate() {
+        let toks: Vec<&str> = a.split(' ').collect();
+        let bad = |what: &str| fail("log-structure", format!("line {n}: got {a:?}, expected {what}: {e:?}"));
+        match e {
+            Exp::Init(fs) => {
+                if *a != format!("I {}", *fs as u32) {
+                    return Err(fail("is-4state-wrong", format!("got {a:?} under four_state={fs}")));
+                }
+            }
+            Exp::ParamBits(i, v) => {
+                if toks.len() < 2 || toks[0] != "P" || toks[1] != format!("T{i}") {
+                    return Err(bad("param"));
+                }
+                let Some((_, got)) = parse_val(&toks[2..]) else {
+                    return Err(fail("param-malformed", format!("parameter T{i}: {a:?}, expected {}", v.show())));
+                };
+                if got != *v {
+                    let sig = if got.width != v.width && got.resize(v.width.max(got.width)) == v.resize(v.width.max(got.width)) {
+                        "param-width-differs"
+                    } else {
+                        "param-bits-differ"
+                    };
+                    return Err(fail(
+                        format!("{sig}{}", suffix(v.width, false)),
+                        format!("parameter T{i}: component got {}, Veryl side gave {}", got.show(), v.show()),
+                    ));
+                }
+            }
+            Exp::ParamStr(i, s) => {
+                let want = format!("P T{i} str {}", s.escape_default());
+                if *a != want {
+                    return Err(fail("param-string-differs", format!("got {a:?}, expected {want:?}")));
+                }
+            }
+            Exp::Cycle(k) => {
+                if *a != format!("C {k}") {
+                    return Err(fail("cycle-count", format!("hook {k}: got {a:?}")));
+                }
+                reads.push(vec![]);
+            }
+            Exp::Read {
+                j,
+                raw,
+                width,
+                pre,
+                post,
+            } => {
+                if toks.len() < 2 || toks[0] != "R" || toks[1] != j.to_string() {
+                    return Err(bad("read"));
+                }
+                let Some((got_raw, got)) = parse_val(&toks[2..]) else {
+                    return Err(fail(
+                        format!("read-malformed{}", suffix(*width, false)),
+                        format!("input {j}: SDK handed over a malformed value (word count / excess high bits): {a:?}"),
+                    ));
+                };
+                if got_raw != *raw || got.width != *width {
+                    return Err(fail("read-width", format!("input {j}: {a:?}, expected width {width} raw={raw}")));
+                }
+                let view = |v: &Bv| if *raw { v.payload_only() } else { v.clone() };
+                if let Some(pre) = pre {
+                    let want = view(pre);
+                    if got != want {
+                        let edge = reads.len();
+                        let sig = if post.as_ref().map(&view) == Some(got.clone()) {
+                            "read-sees-post-edge-value"
+                        } else if got.payload_only() == want.payload_only() {
+                            "read-mask-differs"
+                        } else {
+                            "read-bits-differ"
+                        };
+                        return Err(fail(
+                            format!("{sig}{}", suffix(*width, want.has_xz())),
+                            format!(
+                                "clock hook {edge}, input {j} ({}): component read {}, pre-edge value is {} (post-edge {})",
+                                case::src_expr(&c.ins[*j].src, *j),
+                                got.show(),
+                                want.show(),
+                                post.as_ref().map(|p| view(p).show()).unwrap_or("?".into())
+                            ),
+                        ));
+                    }
+                }
+                reads.last_mut().unwrap().push((*raw, got));
+            }
+            Exp::Method(name, nargs) => {
+                if *a != format!("M {name} {nargs}") {
+                    return Err(fail("method-call-differs", format!("got {a:?}, expected M {name} {nargs}")));
+                }
+            }
+            Exp::ArgBits(i, v) => {
+                if toks.len() < 2 || toks[0] != "A" || toks[1] != i.to_string() {
+                    return Err(bad("arg"));
+                }
+                let Some((_, got)) = parse_val(&toks[2..]) else {
+                    return Err(fail("method-arg-malformed", format!("argument {i}: {a:?}, expected {}", v.show())));
+                };
+                if got != *v {
+                    let w = v.width.max(got.width);
+                    let sig = if got.width != v.width && got.resize(w) == v.resize(w) {
+                        "method-arg-width-differs"
+                    } else {
+                        "method-arg-bits-differ"
+                    };
+                    return Err(fail(
+                        format!("{sig}{}", suffix(v.width, false)),
+                        format!("method argument {i}: component got {}, testbench passed {}", got.show(), v.show()),
+                    ));
+                }
+            }
+            Exp::ArgStr(i, s) => {
+                let want = format!("A {i} str {}", s.escape_default());
+                if *a != want {
+                    return Err(fail("method-arg-string-differs", format!("got {a:?}, expected {want:?}")));
+                }
+            }
+        }
+    }
+    if !out.excess.is_empty() {
+        return Err(fail(
+            "excess-high-bits-stored",
+            format!("variables stored with bits above their width: {:?}", out.excess),
+        ));
+    }
+    // snapshots and method returns
+    for (name, want, hint) in &exp.vars {
+        let Some(Some(got)) = out.snaps.get(name) else {
+            return Err(fail("snapshot-missing", format!("variable {name} not found")));
+        };
+        if got.width != hint.width {
+            return Err(fail("snapshot-width", format!("{name}: width {} expected {}", got.width, hint.width)));
+        }
+        let Some(want) = want else { continue };
+        if got != want {
+            let sig = match hint.kind {
+                "out" | "out-comb" => {
+                    if hint.late.as_ref() == Some(got) {
+                        "output-visible-late"
+                    } else if hint.early.as_ref() == Some(got) {
+                        "output-visible-early"
+                    } else if got.payload_only() == want.payload_only() {
+                        "output-mask-differs"
+                    } else {
+                        "output-bits-differ"
+                    }
+                }
+                "out-capture" => {
+                    if hint.early.as_ref() == Some(got) {
+                        "output-visible-before-ff-commit"
+                    } else {
+                        "capture-ff-differs"
+                    }
+                }
+                "mirror" => "mirror-ff-differs",
+                "stim-ff" => "stimulus-ff-differs",
+                _ => "method-return-bits-differ",
+            };
+            return Err(fail(
+                format!("{sig}{}", suffix(hint.width, want.has_xz())),
+                format!("{name} ({}): DUT side holds {}, model expects {}", hint.kind, got.show(), want.show()),
+            ));
+        }
+    }
+    // (1) relational: what the hook read == what the mirror FF captured on that edge
+    for (edge, snap) in &exp.edge_snap {
+        let rs = &reads[*edge as usize - 1];
+        for (j, (raw, got)) in rs.iter().enumerate() {
+            let name = format!("y{snap}_m{j}");
+            let Some(Some(m)) = out.snaps.get(&name) else { continue };
+            let m = if *raw { m.payload_only() } else { m.clone() };
+            if *got != m {
+                return Err(fail(
+                    format!("read-ne-mirror-ff{}", suffix(got.width, m.has_xz())),
+                    format!(
+                        "edge {edge}, input {j}: component read {}, mirror flip-flop captured {}",
+                        got.show(),
+                        m.show()
+                    ),
+                ));
+            }
+        }
+    }
+    Ok(())
+}
+
+// ---------------------------------------------------------------------------
+// one case
+// ---------------------------------------------------------------------------
+
+fn wclass(w: u32) -> String {
+    match w {
+        63 | 64 | 65 | 127 | 128 | 129 => format!("w={w}"),
+        1..=32 => "w<=32".into(),
+        33..=64 => "w33-64".into(),
+        65..=128 => "w65-128".into(),
+        _ => "w129-300".into(),
+    }
+}
+
+fn classes_of(c: &Case) -> BTreeSet<String> {
+    let mut s = BTreeSet::new();
+    s.insert(if c.xz { "stimulus:4state-xz" } else { "stimulus:2state" }.to_string());
+    for i in &c.ins {
+        s.insert(format!("in:{}", wclass(i.iw)));
+        s.insert(
+            match &i.src {
+                Src::Plain(case::Base::T) => "src:tb-var",
+                Src::Plain(case::Base::S) => "src:ff-output",
+                Src::Slice(..) => "src:slice-expr",
+                Src::Cat => "src:concat-expr",
+                Src::Not(_) => "src:not-expr",
+                Src::Out(_) => "src:component-output-loopback",
+            }
+            .to_string(),
+        );
+        s.insert(if i.rd == probe::RD_RAW { "read-api:words" } else { "read-api:value" }.to_string());
+    }
+    for o in &c.outs {
+        s.insert(format!("out:{}", wclass(o.ow)));
+        s.insert(
+            match o.wr {
+                probe::WR_VALUE => "write-api:value",
+                probe::WR_RESIZE => "write-api:value-other-width",
+                probe::WR_RAW => "write-api:words",
+                _ => "write-api:value-unmasked",
+            }
+            .to_string(),
+        );
+    }
+    for p in &c.params {
+        s.insert(
+            match p {
+                Param::Bits(v) => format!("param:literal:{}", wclass(v.width)),
+                Param::Const(v) => format!("param:const:{}", wclass(v.width)),
+                Param::Str(_) => "param:string".into(),
+            },
+        );
+    }
+    for st in &c.steps {
+        match st {
+            Step::Echo(case::Arg::Bits(v)) | Step::Echo(case::Arg::Var(v)) => {
+                s.insert(format!("method:echo:{}", wclass(v.width)));
+            }
+            Step::Echo(_) => {}
+            Step::Cat(a) => {
+                s.insert(format!("method:cat:{}args", a.len()));
+            }
+            Step::Gen(w, _) => {
+                s.insert(format!("method:gen:{}", wclass(*w)));
+            }
+            Step::Slen(_) => {
+                s.insert("method:string-arg".into());
+            }
+            Step::Clock(n) if *n > 1 => {
+                s.insert("clock:multi-edge-next".into());
+            }
+            _ => {}
+        }
+    }
+    s
+}
+
+fn nontrivial(c: &Case, exp: &Expectation) -> bool {
+    let wide = c.ins.iter().any(|i| i.iw > 64) || c.outs.iter().any(|o| o.ow > 64);
+    // an input that holds two different values at two different edges
+    let mut changing = false;
+    for j in 0..c.ins.len() {
+        let mut seen: Vec<&Bv> = vec![];
+        for e in &exp.log {
+            if let Exp::Read {
+                j: jj, pre: Some(v), ..
+            } = e
+                && *jj == j
+                && !seen.contains(&v)
+            {
+                seen.push(v);
+            }
+        }
+        changing |= seen.len() >= 2;
+    }
+    (wide || c.xz) && exp.edges >= 2 && changing
+}
+
+pub static SKIPS: AtomicU64 = AtomicU64::new(0);
+pub static T_ANALYZE: AtomicU64 = AtomicU64::new(0);
+pub static T_RUN: AtomicU64 = AtomicU64::new(0);
+pub static T_CC: AtomicU64 = AtomicU64::new(0);
+pub static RUNS: AtomicU64 = AtomicU64::new(0);
+
+pub fn check_case(d: &mut Draw, big: bool, lib: &std::path::Path) -> Outcome {
+    let c = case::gen_case(d, big);
+    // engine configurations of this case
+    let states: &[bool] = if c.xz { &[true] } else { &[false, true] };
+    let mut cfgs = vec![];
+    for &four_state in states {
+        let mut engines = vec![(false, false), (true, false), (true, true), (false, true)];
+        if four_state {
+            // EXCLUDED engine {4-state, interpreter, disable_ff_opt}: on it a flip-flop
+            // of <= 64 bits stores payload 0 for every bit of a partially unknown
+            // value (simulator defect without any component involved, reproducer
+            // /verif/known/C35/ff-xz-interp-noffopt.veryl) — the mirror / capture
+            // flip-flops this check measures with are then wrong themselves.
+            engines.pop();
+        }
+        if !big {
+            // two of the (interp/jit x ff-opt) engines per state
+            let n = engines.len();
+            let a = d.below(n as u32) as usize;
+            let b = (a + 1 + d.below(n as u32 - 1) as usize) % n;
+            engines = vec![engines[a], engines[b]];
+        }
+        for (jit, disable_ff_opt) in engines {
+            for dlopen in [false, true] {
+                cfgs.push(EngineCfg {
+                    four_state,
+                    jit,
+                    disable_ff_opt,
+                    cc: false,
+                    dlopen,
+                });
+            }
+        }
+    }
+    if !c.xz && d.chance(1, if big { 10 } else { 50 }) {
+        for dlopen in [false, true] {
+            cfgs.push(EngineCfg {
+                four_state: false,
+                jit: true,
+                disable_ff_opt: d.bool(),
+                cc: true,
+                dlopen,
+            });
+        }
+    }
+    let r = case::render(&c);
+    let input = |extra: serde_json::Value| json!({"veryl": r.code, "detail": extra});
+    let t0 = std::time::Instant::now();
+    let an = simrun::analyze(&r.code, &[probe::PROBE_NAME]);
+    T_ANALYZE.fetch_add(t0.elapsed().as_micros() as u64, Ordering::Relaxed);
+    let an = match an {
+        Ok(a) => a,
+        Err(e) => {
+            SKIPS.fetch_add(1, Ordering::Relaxed);
+            if std::env::var("C35_DEBUG").is_ok() {
+                eprintln!("SKIP {e}\n{}", r.code);
+            }
+            return Outcome::skip(format!("generator: text rejected by the analyzer ({})", e.chars().take(60).collect::<String>()));
+        }
+    };
+    let mut classes = classes_of(&c);
+    let mut logs: Vec<(EngineCfg, String)> = vec![];
+    let mut exp2: Option<Expectation> = None;
+    for cfg in &cfgs {
+        let t0 = std::time::Instant::now();
+        let out = simrun::run(&an, case::TOP, cfg, lib, &r.vars);
+        if cfg.cc { &T_CC } else { &T_RUN }.fetch_add(t0.elapsed().as_micros() as u64, Ordering::Relaxed);
+        let out = match out {
+            Ok(o) => o,
+            Err(e) => {
+                return Outcome::fail(
+                    "simulator-build-fails",
+                    format!("[{}] {e}", cfg.label()),
+                    input(json!({"config": cfg.label()})),
+                );
+            }
+        };
+        RUNS.fetch_add(1, Ordering::Relaxed);
+        let exp = case::model(&c, cfg.four_state);
+        if let Err(f) = check_run(&c, &exp, &out) {
+            return Outcome::fail(
+                f.sig,
+                format!("[{}] {}", cfg.label(), f.msg),
+                input(json!({"config": cfg.label(), "log": out.log})),
+            );
+        }
+        classes.insert(format!(
+            "engine:{}",
+            cfg.label().replace("-static", "").replace("-dlopen", "")
+        ));
+        classes.insert(format!("transport:{}", if cfg.dlopen { "native-library-dlopen" } else { "static-registry" }));
+        if cfg.four_state
+            && exp.vars.iter().any(|(_, v, h)| h.kind == "out" && v.as_ref().is_some_and(|v| v.has_xz()))
+        {
+            classes.insert("component-drives-xz".into());
+        }
+        logs.push((cfg.clone(), out.log));
+        if exp2.is_none() {
+            exp2 = Some(exp);
+        }
+    }
+    // the entry point of `veryl test` (installs the testbench settle filter on top)
+    // must show the component the same things
+    {
+        let cfg = &cfgs[d.below(cfgs.len() as u32) as usize];
+        match simrun::run_native(&an, case::TOP, cfg, lib) {
+            Err(e) => {
+                return Outcome::fail("simulator-build-fails", format!("[{}] {e}", cfg.label()), input(json!({})));
+            }
+            Ok((res, log)) => {
+                RUNS.fetch_add(1, Ordering::Relaxed);
+                let (_, l0) = logs.iter().find(|(c0, _)| c0 == cfg).unwrap();
+                if res.is_err() || *l0 != log {
+                    return Outcome::fail(
+                        "run-native-testbench-differs",
+                        format!("[{}] run_native_testbench: result {res:?}; component log differs from the run_testbench flow: {}", cfg.label(), *l0 != log),
+                        input(json!({"a": l0, "b": log})),
+                    );
+                }
+                classes.insert("flow:run_native_testbench".into());
+            }
+        }
+    }
+    // same log on every engine of one state and on both transports
+    for (cfg, log) in &logs {
+        let (c0, l0) = logs.iter().find(|(c0, _)| c0.four_state == cfg.four_state).unwrap();
+        if l0 != log {
+            let sig = if c0.dlopen != cfg.dlopen && c0.jit == cfg.jit && c0.disable_ff_opt == cfg.disable_ff_opt && c0.cc == cfg.cc {
+                "transport-differs"
+            } else {
+                "engine-differs"
+            };
+            return Outcome::fail(
+                sig,
+                format!("component log differs between {} and {}", c0.label(), cfg.label()),
+                input(json!({"a": l0, "b": log})),
+            );
+        }
+    }
+    let exp = exp2.unwrap();
+    let nt = nontrivial(&c, &exp);
+    Outcome::pass(hash_str(&r.code), nt, classes.into_iter().collect(), r.code)
+}
+
+// ---------------------------------------------------------------------------
+// entry points
+// ---------------------------------------------------------------------------
+
+/// `vc-comp C35-exp FILE top snap1,snap2,.. [filter]` — development aid
 pub fn experiment(args: &[String]) {
     register();
     let code = std::fs::read_to_string(&args[0]).unwrap();
     let top = args[1].clone();
-    let snaps: Vec<String> = args.get(2).map(|s| s.split(',').filter(|x| !x.is_empty()).map(|x| x.to_string()).collect()).unwrap_or_default();
+    let snaps: Vec<String> = args
+        .get(2)
+        .map(|s| s.split(',').filter(|x| !x.is_empty()).map(|x| x.to_string()).collect())
+        .unwrap_or_default();
     let filter = args.get(3).cloned().unwrap_or_default();
     let lib = probe_lib();
-    let h = std::thread::Builder::new().stack_size(64 << 20).spawn(move || {
-        let an = match simrun::analyze(&code, &[c35probe::PROBE_NAME]) {
-            Ok(a) => a,
-            Err(e) => {
-                println!("ANALYZE ERROR: {e}");
-                return;
-            }
-        };
-        for cfg in all_cfgs() {
-            if !cfg.label().contains(&filter) {
-                continue;
-            }
-            println!("=== {}", cfg.label());
-            match simrun::run(&an, &top, &cfg, &lib, &snaps) {
-                Err(e) => println!("RUN ERROR: {e}"),
-                Ok(o) => {
-                    println!("result: {:?}", o.result);
-                    print!("{}", o.log);
-                    for (k, v) in &o.snaps {
-                        println!("  {k} = {}", v.as_ref().map(|b| b.show()).unwrap_or("<none>".into()));
-                    }
-                    if !o.excess.is_empty() {
-                        println!("  EXCESS: {:?}", o.excess);
+    let h = std::thread::Builder::new()
+        .stack_size(64 << 20)
+        .spawn(move || {
+            let an = match simrun::analyze(&code, &[probe::PROBE_NAME]) {
+                Ok(a) => a,
+                Err(e) => {
+                    println!("ANALYZE ERROR: {e}");
+                    return;
+                }
+            };
+            for cfg in all_cfgs() {
+                if !cfg.label().contains(&filter) {
+                    continue;
+                }
+                println!("=== {}", cfg.label());
+                match simrun::run(&an, &top, &cfg, &lib, &snaps) {
+                    Err(e) => println!("RUN ERROR: {e}"),
+                    Ok(o) => {
+                        println!("result: {:?}", o.result);
+                        print!("{}", o.log);
+                        for (k, v) in &o.snaps {
+                            println!("  {k} = {}", v.as_ref().map(|b| b.show()).unwrap_or("<none>".into()));
+                        }
+                        if !o.excess.is_empty() {
+                            println!("  EXCESS: {:?}", o.excess);
+                        }
                     }
                 }
             }
-        }
-    }).unwrap();
+        })
+        .unwrap();
     h.join().unwrap();
 }
 
-pub fn run(_ctx: &Ctx) {
-    println!("INCONCLUSIVE property=C35: check not implemented");
-    std::process::exit(2);
+/// `vc-comp C35-gen <seed words..>`: print a generated case (development aid)
+pub fn show_case(args: &[String]) {
+    let choices: Vec<u32> = args.iter().filter_map(|a| a.parse().ok()).collect();
+    let mut d = Draw::new(choices);
+    let c = case::gen_case(&mut d, false);
+    println!("{}", case::render(&c).code);
+}
+
+pub fn run(ctx: &Ctx) {
+    let lib = probe_lib();
+    if !lib.exists() {
+        println!(
+            "INCONCLUSIVE property=C35: {} not found (the cdylib target of vc-comp was not built)",
+            lib.display()
+        );
+        std::process::exit(2);
+    }
+    register();
+    // the cc backend keeps its artifacts in a cache directory: keep it under .work
+    let scratch = vcore::util::Scratch::new("c35-aotc");
+    // SAFETY: single-threaded at this point
+    unsafe {
+        std::env::set_var("VERYL_AOT_CACHE_DIR", scratch.join("cache"));
+    }
+    let big = !ctx.is_quick();
+    let n = std::env::var("C35_CASES").ok().and_then(|v| v.parse().ok()).unwrap_or(ctx.scale(800, 30_000));
+    let lib2 = lib.clone();
+    let threads = std::env::var("C35_THREADS").ok().and_then(|v| v.parse().ok()).unwrap_or(0);
+    ctx.run("probe", CaseCfg::cases(n).choices(6000).stack_mb(16).threads(threads), move |d: &mut Draw| {
+        check_case(d, big, &lib2)
+    });
+    let skips = SKIPS.load(Ordering::Relaxed);
+    ctx.note("simulator_runs", json!(RUNS.load(Ordering::Relaxed)));
+    ctx.note("generator_rejects", json!(skips));
+    if std::env::var("C35_DEBUG").is_ok() {
+        eprintln!(
+            "thread-time: analyze {} ms, runs {} ms, cc runs {} ms",
+            T_ANALYZE.load(Ordering::Relaxed) / 1000,
+            T_RUN.load(Ordering::Relaxed) / 1000,
+            T_CC.load(Ordering::Relaxed) / 1000
+        );
+    }
+    if !ctx.replay_mode() && skips as usize * 50 > n {
+        println!("INCONCLUSIVE property=C35: the analyzer rejected {skips} of {n} generated testbenches (generator out of date)");
+        std::process::exit(2);
+    }
+    ctx.assume("NOT COVERED: the clause 'identical results as a native library or as WebAssembly' — the sandbox has no wasm32 std and no prebuilt .wasm, so the wasm transport (crates/simulator/src/component/wasm.rs, crates/component/src/export/wasm.rs) is never executed; only the two native transports (static registry and dlopen of a cdylib built from the same probe source) are compared");
+    ctx.assume("parameters, method arguments and method returns are two-state by the documented contract (host.rs: 'Parameters, method arguments and returns are two-state'); X/Z is generated for ports only, under 4-state engines");
+    ctx.assume("power-on values of flip-flops and never-assigned variables are not asserted (the model treats them as unspecified); the relational check 'hook read == mirror flip-flop' still applies to them");
+    ctx.assume("observation of the DUT side: zero-time blocking assignments in the testbench `initial` block copy the observed signals into snapshot variables right after each `clk.next()`; these are read with Simulator::get_var after the run");
+    ctx.assume("the cc backend is 2-state only (Config::all), so it runs on cases without X/Z stimulus");
+    ctx.finish(
+        "exploration",
+        "generated #[test] modules: probe component with 1-5 inputs / 1-4 outputs of width 1..300 (boundary widths 63/64/65/127/128/129/.. favoured), input sources tb variable / flip-flop output / slice / concat / not / loop-back of a component output, 2-8 stimulus blocks of corner-biased values (X/Z masks in 2/5 of the cases), parameters and method calls of width 1..300, run on 2-4 engine configurations per state x both native transports; non-trivial = some port wider than 64 bits or X/Z stimulus, at least 2 clock edges and an input that holds two different values at two edges; distinct by hash of the generated Veryl text",
+    );
 }
